@@ -975,6 +975,13 @@ type mapEvent struct {
 	Del      bool // delete(m, k)
 }
 
+// listAppend: ghost record of one append(list, elems…) call
+type listAppend struct {
+	Target string // source text of the list expression
+	Guard  string
+	Pos    token.Pos
+}
+
 type LoopSpec struct {
 	Unroll    int
 	Invs      []*Clause
